@@ -148,7 +148,7 @@ def run(ctx, out):
                     plans.append([(a[0], a[1], rng.choice(names)), (b[0], b[1], rng.choice(names))])
             for plan in plans:
                 setup()
-                rules = [("fail", ERRNOS[en], 0, e["sys"], nth, e["p1"]) for (e, nth, en) in plan]
+                rules = [("fail", ERRNOS[en], 0, e["sys"], nth, "=" + e["p1"]) for (e, nth, en) in plan]
                 r = xcp.run_supervised(sup, argv, d, d, rules=rules, tag="f", timeout_ms=20000)
                 fired = [x for x in r.trace if x.get("inj")]
                 desc = [(e["sys"], e["p1"][len(d):], nth, en) for (e, nth, en) in plan]
